@@ -6,7 +6,7 @@ export CARGO_NET_OFFLINE=true
 mkdir -p .cache work evidence replays
 # generated harness glue (from the front-end's object table / published docs)
 python3 -m tools.gen_dispatch > /dev/null
-for g in tools/gen_mask.py tools/gen_definer.py; do
+for g in tools/gen_mask.py tools/gen_definer.py tools/gen_chunks.py; do
   if [ -f "$g" ]; then python3 -m "tools.$(basename "$g" .py)" > /dev/null || true; fi
 done
 (cd harness && cargo build --offline -p vh_base -p vh 2>&1 | tail -3)
